@@ -807,3 +807,161 @@ func (p *Program) isNudgeHelperCall(info *types.Info, e ast.Expr, lhs string, is
 	})
 	return good && writes >= 1 && returns
 }
+
+// ruleScanExits (C02/C03): an ∃-scan (`for … { if hit { return true } } return
+// false`) or ∀-scan (`… return false … return true`) over the segments, points
+// or holes of a geometry answers with its default only after every element
+// was considered.  Inside such a loop a `return` must therefore carry the
+// non-default answer, and a bare `break` (which falls through to the default
+// answer) is an early default exit: the remaining elements are never looked at.
+// `continue` is unrestricted (skipping one element is a local decision).
+func (p *Program) ruleScanExits(c *Check) {
+	n := 0
+	for _, fn := range p.RepoDecls() {
+		fd, pkg := p.Decl(fn), p.DeclPkg(fn)
+		if fd == nil || fd.Body == nil || pkg != p.Geom {
+			continue
+		}
+		info := pkg.TypesInfo
+		sig := fn.Type().(*types.Signature)
+		if sig.Results().Len() != 1 {
+			continue
+		}
+		if bt, ok := sig.Results().At(0).Type().Underlying().(*types.Basic); !ok || bt.Kind() != types.Bool {
+			continue
+		}
+		boolConst := func(e ast.Expr) (bool, bool) {
+			tv, ok := info.Types[e]
+			if !ok || tv.Value == nil || tv.Value.Kind() != constant.Bool {
+				return false, false
+			}
+			return constant.BoolVal(tv.Value), true
+		}
+		var visitBlock func(list []ast.Stmt)
+		visitBlock = func(list []ast.Stmt) {
+			for i, st := range list {
+				// descend into nested blocks first
+				switch s := st.(type) {
+				case *ast.IfStmt:
+					visitBlock(s.Body.List)
+					if e, ok := s.Else.(*ast.BlockStmt); ok {
+						visitBlock(e.List)
+					} else if e, ok := s.Else.(*ast.IfStmt); ok {
+						visitBlock([]ast.Stmt{e})
+					}
+				case *ast.BlockStmt:
+					visitBlock(s.List)
+				case *ast.SwitchStmt:
+					for _, cl := range s.Body.List {
+						visitBlock(cl.(*ast.CaseClause).Body)
+					}
+				}
+				var body *ast.BlockStmt
+				switch s := st.(type) {
+				case *ast.ForStmt:
+					body = s.Body
+				case *ast.RangeStmt:
+					body = s.Body
+				}
+				if body == nil {
+					continue
+				}
+				visitBlock(body.List)
+				// the default answer: a constant return right after the loop
+				if i+1 >= len(list) {
+					continue
+				}
+				ret, ok := list[i+1].(*ast.ReturnStmt)
+				if !ok || len(ret.Results) != 1 {
+					continue
+				}
+				def, isConst := boolConst(ret.Results[0])
+				if !isConst {
+					continue
+				}
+				// only scans over the elements of a geometry (their index/element is used to fetch a segment, point or hole)
+				if !mentions(body, func(m ast.Node) bool {
+					call, ok := m.(*ast.CallExpr)
+					if !ok {
+						return false
+					}
+					if sel, ok := ast.Unparen(call.Fun).(*ast.SelectorExpr); ok {
+						return sel.Sel.Name == "SegmentAt" || sel.Sel.Name == "PointAt"
+					}
+					return false
+				}) {
+					if _, isRange := st.(*ast.RangeStmt); !isRange {
+						continue
+					}
+				}
+				n++
+				con := fmt.Sprintf("%s#scan@%s", FuncName(fn), p.src(loopHead(st)))
+				bad := ""
+				var walk func(nd ast.Node, depthLoop int)
+				walk = func(nd ast.Node, depthLoop int) {
+					ast.Inspect(nd, func(m ast.Node) bool {
+						switch x := m.(type) {
+						case *ast.FuncLit:
+							return false
+						case *ast.ForStmt:
+							if m != nd {
+								walk(x.Body, depthLoop+1)
+								return false
+							}
+						case *ast.RangeStmt:
+							if m != nd {
+								walk(x.Body, depthLoop+1)
+								return false
+							}
+						case *ast.SwitchStmt, *ast.TypeSwitchStmt, *ast.SelectStmt:
+							if m != nd {
+								// a break inside a switch leaves the switch, not the loop
+								ast.Inspect(m, func(k ast.Node) bool {
+									if r, ok := k.(*ast.ReturnStmt); ok && len(r.Results) == 1 {
+										if v, isK := boolConst(r.Results[0]); isK && v == def {
+											bad = "returns the default answer (" + fmt.Sprint(def) + ") from inside the scan at " + p.Pos(r.Pos())
+										}
+									}
+									_, isLit := k.(*ast.FuncLit)
+									return !isLit
+								})
+								return false
+							}
+						case *ast.BranchStmt:
+							if x.Tok == token.BREAK && depthLoop == 0 && x.Label == nil {
+								bad = "leaves the scan with a bare break at " + p.Pos(x.Pos()) + ": the default answer (" + fmt.Sprint(def) + ") is given although later elements were never considered"
+							}
+						case *ast.ReturnStmt:
+							if len(x.Results) == 1 {
+								if v, isK := boolConst(x.Results[0]); isK && v == def {
+									bad = "returns the default answer (" + fmt.Sprint(def) + ") from inside the scan at " + p.Pos(x.Pos()) + ": later elements are never considered"
+								}
+							}
+						}
+						return true
+					})
+				}
+				walk(body, 0)
+				if bad != "" {
+					c.Bad("E12.scan", con, p.Pos(st.Pos()), bad)
+				} else {
+					c.OK("E12.scan", con, p.Pos(st.Pos()), fmt.Sprintf("the default answer %v is given only after the loop; exits from inside the loop carry the opposite answer", def))
+				}
+			}
+		}
+		visitBlock(fd.Body.List)
+	}
+	c.Floor("E12.scan", n, 6, "∃/∀ scans over geometry elements")
+}
+
+func loopHead(st ast.Stmt) ast.Expr {
+	switch s := st.(type) {
+	case *ast.ForStmt:
+		if s.Cond != nil {
+			return s.Cond
+		}
+	case *ast.RangeStmt:
+		return s.X
+	}
+	return &ast.Ident{Name: "loop"}
+}
